@@ -235,6 +235,10 @@ pub fn plan_for(id: &str) -> Option<Plan> {
             let mut p = pool2_plan("C15", RULE, 5000, 250_000, vec!["swap_rejected_for_slippage", "deposit_rejected_for_slippage", "router_rejected_min_receive", "min_receive_receiver_had_balance", "trio_swap_rejected_for_slippage"]);
             p.parts.push(pool3_part(1500, 80_000));
             p.real.push("stableswap_3pool (real)");
+            // deposits through the frontend helper (INCENT world: pair + helper + incentive)
+            p.parts.push(PlanPart { scen: scen::<scen::incent::Incent>(), quick_runs: 800, thorough_runs: 40_000 });
+            p.real.push("frontend_helper, incentive, incentive_factory (real) for deposits with a tolerance through the helper");
+            p.want_probes.push("helper_deposit_with_tolerance_accepted");
             Some(p)
         }
         "C08" => Some(Plan {
